@@ -619,8 +619,117 @@ class PhaseFieldHDScn(PhaseFieldScn):
         return out
 
 
-SCENARIOS = {s.name: s for s in (ElasticScn, Elastic3DScn, AnisoScn, ThermalScn, HyperScn, BeamScn, Beam3DScn, PhaseFieldScn, PhaseFieldHDScn)}
-QUICK_SCN = ["elastic", "thermal", "hyperelastic", "beam", "beam3d", "phasefield", "elastic_trisot", "elastic3d", "phasefield_hd"]
+class InElasticScn(HyperScn):
+    """History-dependent material below its yield stress (no internal variable ever becomes non-zero, so a fresh simulation given the live
+    displacement is in the same state): the Newton path of `Simulations.InElastic` over the same geometric caches and parameter observers.
+    Parameters: the elastic law held by the behaviour (E), thickness, plane stress / plane strain."""
+    name = "inelastic"
+    params0 = {"E": 2.0, "thickness": 0.7, "planeStress": False}
+    alt = {"E": 3.5, "thickness": 1.2, "planeStress": True}
+    model_ops = ["E", "thickness", "planeStress"]
+    dynamic = False
+
+    def make_model(self, cfg):
+        from EasyFEA import Models
+
+        p = cfg["params"]
+        el = Models.Elastic.Isotropic(3, E=p["E"], v=0.3)
+        return Models.InElastic.Behavior(2, el, yieldSurface=Models.InElastic.Yield.VonMises(50.0),
+                                         hardening=Models.InElastic.IsotropicHardening.Linear(0.2),
+                                         planeStress=p["planeStress"], thickness=p["thickness"])
+
+    def set_param(self, model, name, value):
+        if name == "E":
+            model.elastic.E = value
+        else:
+            setattr(model, name, value)
+
+    def make_simu(self, mesh, model, cfg):
+        from EasyFEA import Simulations
+
+        return Simulations.InElastic(mesh, model)
+
+    def ops(self):
+        return [o for o in Scenario.ops(self) if o not in ("rayleigh", "algo", "rho")]
+
+    def observe(self, simu, cfg, solve=True):
+        obs = {}
+        if cfg["bc"] is None:
+            return obs
+        with _quiet():
+            u = simu.Solve()
+        obs["solve.u"] = np.array(u, dtype=float)
+        obs["result.Svm"] = np.atleast_1d(np.asarray(simu.Result("Svm", nodeValues=False), dtype=float))
+        return obs
+
+
+class WeakFormsScn(Scenario):
+    """User-written forms (reaction-diffusion with capacity and mass terms and a source): the model owns a `Field` bound to the element group, the
+    forms close over a coefficient the user may change (followed by the documented `Need_Update()`), `thickness` is the model's own parameter.
+    No mesh replacement (a Field is bound to the element group of the mesh it was created on)."""
+    name = "weakforms"
+    params0 = {"k": 1.5, "thickness": 0.7}
+    alt = {"k": 2.5, "thickness": 1.2}
+    model_ops = ["k", "thickness"]
+    dyn_algo = ("newmark", 0.1)
+    result_names = ["u"]
+
+    def make_model(self, cfg):
+        return None  # needs the mesh: built in build()
+
+    def build(self, cfg, model=None):
+        from EasyFEA import Models, Simulations
+        from EasyFEA.FEM import BiLinearForm, Field, LinearForm
+
+        mesh = _mesh(cfg["mesh"], cfg["coords"])
+        coef = {"k": cfg["params"]["k"]}
+        field = Field(mesh.groupElem, 1)
+        wf = Models.WeakForms(field,
+                              computeK=BiLinearForm(lambda u, v: coef["k"] * u.grad.dot(v.grad) + 0.3 * u.dot(v)),
+                              computeC=BiLinearForm(lambda u, v: 0.5 * u.dot(v)),
+                              computeM=BiLinearForm(lambda u, v: 0.8 * u.dot(v)),
+                              computeF=LinearForm(lambda v: 0.4 * v),
+                              thickness=cfg["params"]["thickness"])
+        simu = Simulations.WeakForms(mesh, wf)
+        self.__dict__.setdefault('_coef_of', {})[id(simu)] = (simu, coef)  # keeps simu alive: ids stay unique
+        self.apply_bc(simu, cfg)
+        self.set_algo(simu, cfg)
+        return simu
+
+    def ops(self):
+        return [o for o in super().ops() if o not in ("rayleigh", "rho", "replacemesh")]
+
+    def apply(self, simu, cfg, op, live):
+        if op == "k":
+            new = self.alt["k"] if cfg["params"]["k"] == self.params0["k"] else self.params0["k"]
+            cfg["params"]["k"] = new
+            self._coef_of[id(simu)][1]["k"] = new
+            simu.Need_Update()  # the documented way of telling a simulation that something its forms read has changed
+            cfg["coords"] = np.array(simu.mesh.coord, dtype=float)
+            return
+        if op == "thickness":
+            new = self.alt[op] if cfg["params"][op] == self.params0[op] else self.params0[op]
+            cfg["params"][op] = new
+            simu.model.thickness = new
+            cfg["coords"] = np.array(simu.mesh.coord, dtype=float)
+            return
+        super().apply(simu, cfg, op, live)
+
+    def apply_bc(self, simu, cfg):
+        simu.Bc_Init()
+        if cfg["bc"] is None:
+            return
+        lo, hi = self.sides_by_index(simu.mesh, cfg)
+        unk = simu.Get_unknowns()
+        simu.add_dirichlet(lo, [0.0], unk)
+        if cfg["bc"] == 0:
+            simu.add_neumann(hi, [0.4], unk)
+        else:
+            simu.add_dirichlet(hi, [0.05 if cfg["bc"] == 1 else 0.03], unk)
+
+
+SCENARIOS = {s.name: s for s in (ElasticScn, Elastic3DScn, AnisoScn, ThermalScn, HyperScn, BeamScn, Beam3DScn, PhaseFieldScn, PhaseFieldHDScn, InElasticScn, WeakFormsScn)}
+QUICK_SCN = ["elastic", "thermal", "hyperelastic", "beam", "beam3d", "phasefield", "elastic_trisot", "elastic3d", "phasefield_hd", "inelastic", "weakforms"]
 
 
 def cases(tier, seed):
@@ -654,7 +763,7 @@ def cases(tier, seed):
 def describe(tier, seed):
     depth = 2 if tier == "quick" else 3
     return {
-        "rule": f"E2 unmerged: for each of {len(QUICK_SCN)} simulation scenarios (elastic 2D/3D, transversely isotropic with axes, thermal, hyperelastic, beam 2D, beam 3D with a section axis, phase-field) every sequence of its public mutating operations "
+        "rule": f"E2 unmerged: for each of {len(QUICK_SCN)} simulation scenarios (elastic 2D/3D, transversely isotropic with axes, thermal, hyperelastic, beam 2D, beam 3D with a section axis, phase-field with history / damage-based irreversibility, history-dependent material (InElastic) below yield, user weak forms (WeakForms) with a coefficient its forms close over) every sequence of its public mutating operations "
                 f"(11-18 per scenario: each model parameter, rho, Rayleigh coefficients, Translate, Rotate, Symmetry, coordinate assignment, mesh replacement, "
                 f"re-entered conditions, algorithm switch, solve+save, restore iteration 0) of length {depth} with an observation (matrices, solve, results) "
                 f"after every operation, and of length {depth + 1 if tier == 'quick' else depth} with one observation at the end; caches are primed by an observation before the first operation. "
@@ -666,6 +775,8 @@ def describe(tier, seed):
         "assumptions": ["differential oracle: the fresh simulation is given the live coordinates, the live state (u, v, a through the public getters) and the harness's record of parameters/conditions",
                         "conditions are re-entered after mesh replacement / iteration restore (the mesh setter documents that it re-initialises them)",
                         "phase-field: only the displacement system is compared (the damage system depends on a private history field)",
+                        "inelastic: loads stay below the yield stress (a fresh simulation cannot be handed internal variables); observed through Solve() and Svm",
+                        "weakforms: no mesh replacement (the model owns a Field bound to the element group); a changed closure coefficient is followed by the documented Need_Update()",
                         "tolerance 1e-11 relative on matrices, 1e-8 on solutions and results"],
     }
 
